@@ -198,7 +198,7 @@ def oracle_terms(P, pts, obs_raw, vals, obs_over=None):
         ao = np.asarray(obs_over["a"]).reshape(-1) if "a" in obs_over else ao
         bo = np.asarray(obs_over["b"]).reshape(-1) if "b" in obs_over else bo
     Uo = net(zo, ao, bo, co)
-    out["observations"] = float(np.mean((Uo - np.asarray(obs_raw["val"])[:, 0]) ** 2))
+    out["observations"] = float(np.mean((Uo - np.asarray(obs_raw["val"]).reshape(len(zo), -1 if len(zo) else 1)[:, 0]) ** 2)) if len(zo) else 0.0
     if bk == "ode":
         U0 = net(np.full((B, 1), 0.3), a, b, c)
         out["initial_condition"] = float(np.mean((U0 - 0.2) ** 2))
